@@ -14,8 +14,14 @@ EXPLANATION = (
     "validity of every AST node constructor, the dispatch tables behind getattr(self, 'parse_...'), "
     "Enum lookups and None-able token values included. The higher-order helpers (many, any, "
     "optional_many, delimited_many) are verified against a generic parser-function contract that "
-    "every call site must meet. graphql_impl and the resolver-exception half of the statement are "
-    "listed under 'unverified'.")
+    "every call site must meet. Validation: the recursions that follow fragment spreads "
+    "(forbid_defer_stream, forbid_unconditional_defer_stream, and collect_fields_impl on the execution "
+    "side) terminate - every recursive call lowers (fragment names not yet visited, size of the "
+    "selection set) lexicographically; 39 visitor methods of the validation rules have a generated "
+    "exception-frame contract (only GraphQLError leaves, whatever the context getters return); "
+    "coerce_input_value turns whatever a leaf type's coercion raises into 'invalid'; located_error "
+    "forwards only well-typed arguments to the error constructor. graphql_impl, validate() as a whole "
+    "and the rest of the resolver-exception half are listed under 'unverified' (bounded stand-ins).")
 def _rule_methods_not_decided():
     """Visitor methods of the validation rules for which a frame contract is generated
     (contracts/zz_rules.py) but which the engine does not decide on the pinned tree."""
@@ -25,7 +31,8 @@ def _rule_methods_not_decided():
                        for n, _f in zz_rules.visitor_methods(c)
                        if f"{c.__name__}.{n}" not in zz_rules.RULE_METHODS_DECIDED)
     except Exception as e:  # noqa: BLE001
-        return [f"validation rule methods outside the generated frame contracts: not listed ({type(e).__name__})"]
+        return ["the visitor methods of the validation rules that are not in contracts/zz_rules.RULE_METHODS_DECIDED "
+                "(their generated exception-frame contract is outside the supported subset; named in evidence/C01.json)"]
     return ["validation rule methods whose generated exception-frame contract is NOT decided (outside the "
             "supported subset; covered by the bounded pipeline corpus only): " + ", ".join(names)]
 
